@@ -266,6 +266,60 @@ def work_substances(idx, chunk, seed, reps):
                                    "multiplying a substance by k does not scale this reported property by k")
                 else:
                     part.count("reply_property_scaled_ok")
+        # A6: `substance -> k unit`: every property shown (numeral x constant x units, read as printed) is still the
+        # property of the substance (or its reciprocal when the conversion turns the ratio over)
+        for pname, prop in sorted(sub["props"].items()):
+            b = base_props.get(pname)
+            if b is None or b["raw"] is None or b["raw"].get("f"):
+                continue
+            try:
+                bu, bd = P.unit_product(reg, [(kk, int(pp)) for kk, pp in b["raw"]["u"].items()])
+            except (P.Unjudgeable, R.OutOfScope):
+                continue
+            bv = Fraction(int(b["raw"]["n"]), int(b["raw"]["d"])) * bu
+            if bv == 0:
+                continue
+            for side in ("output", "input"):
+                sd = num_val(prop[side])
+                if sd.f or not sd.d:
+                    continue
+                names = [n for n in classes.get(dims_key(sd.d), []) if render_name(n) and n not in KEYWORDS
+                         and not reg.lookup_exact(n).f and reg.lookup_exact(n).v > 0]
+                if not names:
+                    continue
+                un = render_name(rng.choice(names))
+                kq = rng.choice(["2 %s", "10 %s", "%s/2", "2|3 %s", "%s", "7 %s", "%s/10"]) % un
+                q = "%s -> %s" % (rs, kq)
+                r = ask(part, probe, q)
+                if r is None:
+                    continue
+                rep = r.get("r") or {}
+                if rep.get("kind") != "substance":
+                    part.count("substance_conversion_other_reply:%s" % rep.get("kind"))
+                    continue
+                for pr_ in rep["properties"]:
+                    if pr_["name"] != pname:
+                        continue
+                    try:
+                        units = P.structured_units(pr_["value"])
+                        _, ud = P.unit_product(reg, units)
+                        if dims_key(ud) == dims_key(bd):
+                            want, wd = bv, bd
+                        elif dims_key(ud) == dims_key(R.dpow(bd, -1)):
+                            want, wd = 1 / bv, R.dpow(bd, -1)
+                        else:
+                            part.violation({"kind": "converted_property_dimensionality_differs"},
+                                           {"query": q, "property": pname, "shown": ud, "property_dims": bd}, "")
+                            continue
+                        problems = P.check_parts(pr_["value"], reg, quantity=want, qdims=wd)
+                        for kind, detail in problems:
+                            part.violation({"kind": "converted_property_" + kind, "target_form": kq.replace(un, "u")},
+                                           {"query": q, "property": pname, "reply": (r.get("text") or "")[:300], "detail": detail},
+                                           "a property shown by `substance -> constant unit` is not the substance's property")
+                        if not problems:
+                            part.count("converted_property_ok")
+                    except (P.Unjudgeable, R.OutOfScope):
+                        part.count("display_unjudgeable")
     return part.export()
 
 
